@@ -931,11 +931,17 @@ fn scheme_stage(rep: &mut Report, cfg: &Cfg) {
             continue;
         }
         let permitted = adv.contains(&used);
-        let uris = vec![
-            "urn:ietf:params:netconf:base:1.0".to_string(),
-            "urn:ietf:params:netconf:capability:candidate:1.0".to_string(),
-            format!("urn:ietf:params:netconf:capability:url:1.0?scheme={}", adv.join(",")),
-        ];
+        let mut uris = vec!["urn:ietf:params:netconf:base:1.0".to_string(), "urn:ietf:params:netconf:capability:candidate:1.0".to_string()];
+        // one :url capability listing every scheme, or (one case in three, with two or more
+        // schemes) several :url capabilities each listing some: what is advertised is the union
+        if adv.len() >= 2 && r.chance(1, 3) {
+            let cut = r.range(1, adv.len() - 1);
+            uris.push(format!("urn:ietf:params:netconf:capability:url:1.0?scheme={}", adv[..cut].join(",")));
+            uris.push(format!("urn:ietf:params:netconf:capability:url:1.0?scheme={}", adv[cut..].join(",")));
+            rep.count("scheme_cases:schemes-spread-over-several-url-capabilities");
+        } else {
+            uris.push(format!("urn:ietf:params:netconf:capability:url:1.0?scheme={}", adv.join(",")));
+        }
         let uri_refs: Vec<&str> = uris.iter().map(String::as_str).collect();
         let mut s = match sess::establish(&memwire::server_hello(&uri_refs, "4242")) {
             sess::Established::Ok(s) => s,
